@@ -84,6 +84,7 @@ let parse_op2 t : op2 =
   | Some "dwd" -> ignore (next t);
     let k = (match count t with Some k -> k | None -> 0) in
     OpSetWithdrawalsDeprecated (rep k (fun () -> let a = num t in let c = num t in let sc = (next t = "1") in ((a, c), sc)))
+  | Some "rmmint" -> ignore (next t); OpRemoveMint
   | Some "kprops" -> ignore (next t);
     let k = (match count t with Some k -> k | None -> 0) in
     OpProposalsKeyed (rep k (fun () -> let i = num t in let d = num t in (i, d)))
